@@ -204,10 +204,12 @@ def sub (s : Slice) (lo hi : Nat) : Slice := ⟨s.obj, s.off + lo, hi - lo, s.ca
 def Has (s : Slice) (o p : Nat) : Prop := s.obj = o ∧ s.off ≤ p ∧ p < s.off + s.len
 
 /-- two slices share no element -/
-def Disjoint (s t : Slice) : Prop := s.obj ≠ t.obj ∨ s.off + s.len ≤ t.off ∨ t.off + t.len ≤ s.off
+def Disjoint (s t : Slice) : Prop :=
+  s.len = 0 ∨ t.len = 0 ∨ s.obj ≠ t.obj ∨ s.off + s.len ≤ t.off ∨ t.off + t.len ≤ s.off
 
 /-- the capacity regions (what `append` may write in place) share nothing -/
-def CapDisjoint (s t : Slice) : Prop := s.obj ≠ t.obj ∨ s.off + s.cap ≤ t.off ∨ t.off + t.cap ≤ s.off
+def CapDisjoint (s t : Slice) : Prop :=
+  s.cap = 0 ∨ t.cap = 0 ∨ s.obj ≠ t.obj ∨ s.off + s.cap ≤ t.off ∨ t.off + t.cap ≤ s.off
 
 instance (s t : Slice) : Decidable (s.Disjoint t) := by unfold Disjoint; exact inferInstance
 instance (s t : Slice) : Decidable (s.CapDisjoint t) := by unfold CapDisjoint; exact inferInstance
@@ -383,7 +385,7 @@ theorem bytes_eq_of_byte? (h h' : Heap) (o p n : Nat) (x x' : Obj)
 end Heap
 
 /-- n ≤ pow2ceil n below 2^64 -/
-theorem pow2ceilAux_ge (fuel c n : Nat) (hc : n ≤ c * 2 ^ fuel) : n ≤ pow2ceilAux fuel c n := by
+theorem mem_pow2ceilAux_ge (fuel c n : Nat) (hc : n ≤ c * 2 ^ fuel) : n ≤ pow2ceilAux fuel c n := by
   induction fuel generalizing c with
   | zero => simpa [pow2ceilAux] using hc
   | succ f ih =>
@@ -393,7 +395,7 @@ theorem pow2ceilAux_ge (fuel c n : Nat) (hc : n ≤ c * 2 ^ fuel) : n ≤ pow2ce
 
 theorem le_mcap (c : Nat) : c ≤ Heap.mcap c := by
   unfold Heap.mcap; split
-  · unfold pow2ceil; apply pow2ceilAux_ge
+  · unfold pow2ceil; apply mem_pow2ceilAux_ge
     have : (2:Nat) ^ 45 ≤ 2 ^ 64 := Nat.pow_le_pow_right (by decide) (by decide)
     omega
   · exact Nat.le_refl c
